@@ -202,6 +202,14 @@ func (c *Ctx) ruleU2(rule string) {
 					}
 					c.Check(rule, key, x.freshKc(fa.X), in.Pos(), "field %s of a rule container that this function did not just create is overwritten in place (container: %s); running executions hold that container", fieldOf(fa).Name(), x.Describe(fa.X))
 				}
+				// the container overwritten as a whole through a pointer: `*own = *kc`
+				if nt, ok := t.Val.Type().(*types.Named); ok && nt.Obj().Name() == "KnowledgeContext" && nt.Obj().Pkg() != nil && nt.Obj().Pkg().Path() == pBase {
+					if _, isCell := t.Addr.(*ssa.Alloc); !isCell {
+						n++
+						k++
+						c.Check(rule, fmt.Sprintf("%s#kc-whole-store%d", fnName(f), k), x.freshKc(t.Addr), in.Pos(), "a rule container that this function did not just create is overwritten as a whole (container: %s); running executions hold that container and would see the new version halfway through", x.Describe(t.Addr))
+					}
+				}
 				if ia, ok := t.Addr.(*ssa.IndexAddr); ok {
 					if sl, ok := ia.X.Type().Underlying().(*types.Slice); ok && structName(sl.Elem()) == "RuleEntity" {
 						n++
